@@ -54,7 +54,7 @@ ASSUMPTIONS = [
 ]
 REQUIRED_COUNTERS = ["mrng_draws", "mctr_calls", "secrets_judged", "rule1_pairs", "rule2_draws", "rule3_secrets",
                      "rule4_blocks", "restarts", "xproc_pairs", "fam_sb2", "fam_mbi", "fam_otfad", "fam_iee", "fam_bee",
-                     "fam_hab", "fam_filler", "fam_loadhex"]
+                     "fam_hab", "fam_filler", "fam_loadhex", "rng_stream_children", "rng_stream_bytes_checked"]
 CASE_TIMEOUT_S = 2700
 WATCHDOG_S = {"quick": 1500, "thorough": 7200}
 MAX_JOBS = 16
@@ -840,6 +840,31 @@ def run_plan(plan: dict, mon: monitors.Monitors, workdir: str) -> dict:
     return {"arts": [a.record() for a in arts], "refused": refused, "t_end": mon.clock.t}
 
 
+def stream_replays(draws: list) -> list:
+    """Rule 5 - the random source itself does not replay inside one interpreter: no 16-byte stretch of a draw occurs in
+    an earlier draw (at ANY alignment: a generator that serves requests from a block it forgot to renew hands out the
+    same bytes at shifted positions).  Index: every 8th 8-byte window of the earlier draws; test: every window of the
+    new draw - an overlap of >= 15 bytes is always found, a chance hit has probability ~ n^2 / 2^64.
+    Returns [(seq of the draw, seq of the earlier draw, offset in the draw, where, earlier where)]."""
+    index: dict = {}
+    out = []
+    for d in draws:
+        v = d.value
+        if len(v) < 16:
+            continue
+        hit = None
+        for i in range(len(v) - 7):
+            e = index.get(v[i:i + 8])
+            if e is not None:
+                hit = (d.seq, e[0], i, d.where, e[1])
+                break
+        if hit:
+            out.append(hit)
+        for i in range(0, len(v) - 7, 8):
+            index.setdefault(v[i:i + 8], (d.seq, d.where))
+    return out
+
+
 def ledger_json(mon: monitors.Monitors) -> dict:
     return {"draws": [d.to_json() for d in mon.rng.draws], "ctr": [c.to_json() for c in mon.ctr.calls],
             "patched": mon.patched, "ctr_unrecorded": mon.ctr.unrecorded}
@@ -1120,6 +1145,8 @@ def cases(tier, seed):  # noqa: ARG001
         yield {"kind": "restarts", "k": k, "children": 4}
     for k, mods in enumerate(REPO_TESTS_THOROUGH if tier == "thorough" else REPO_TESTS_QUICK):
         yield {"kind": "repo_tests", "k": k, "modules": mods}
+    for k in range(6 if tier == "thorough" else 1):
+        yield {"kind": "rng_stream", "k": k, "n": 8000 if tier == "thorough" else 1600, "min_bytes": 300_000 if tier == "thorough" else 60_000}
 
 
 def selftest(ctx):  # noqa: ARG001
@@ -1332,6 +1359,7 @@ def _run_restarts(case, ctx):
         ctx.count("mrng_draws", len(draws))
         ctx.count("mctr_calls", len(calls))
         _report(ctx, fnd, rec, f"child interpreter {j} of {k} (PYTHONHASHSEED={seeds[j]})")
+        _report_replays(ctx, draws, f"child interpreter {j} of {k}")
     # across interpreters: corresponding secrets, any secret, any >= 8-byte draw
     fnd = Findings()
     pairs = 0
@@ -1484,12 +1512,70 @@ def run_case(case, ctx):
         return _run_restarts(case, ctx)
     if kind == "repo_tests":
         return _run_repo_tests(case, ctx)
+    if kind == "rng_stream":
+        return _run_rng_stream(case, ctx)
     raise core.Inconclusive(f"unknown case kind {kind}")
+
+
+def _report_replays(ctx, draws: list, who: str) -> None:
+    ctx.count("rng_stream_bytes_checked", sum(d.length for d in draws if d.length >= 16))
+    rep = stream_replays(draws)
+    if rep:
+        seq, earlier, off, where, ewhere = rep[0]
+        ctx.violation("rng-output-replayed-within-one-interpreter",
+                      {"interpreter": who, "replayed_draws": len(rep), "first": {"draw": seq, "earlier_draw": earlier, "offset": off,
+                                                                               "site": where, "earlier_site": ewhere},
+                       "bytes_drawn": sum(d.length for d in draws)})
+
+
+def _run_rng_stream(case, ctx):
+    """One fresh interpreter builds cheap artifacts until far more random bytes were drawn than any plausible buffer
+    holds; the whole M-RNG ledger of that interpreter is checked for replays (rule 5; thorough: also rules (1)-(4))."""
+    rng = ctx.rng
+    kinds = []
+    for _ in range(case["n"]):
+        kinds.append(core.pick(rng, ["iee_keyblob", "iee_keyblob", "otfad_keyblob", "sb21_advparams", "sb20_advparams", "bee_header", "load_hex_none"]))
+    plan = make_plan(rng, kinds, f"{ctx.seed}/{ID}/{ctx.case_index}/stream", interleave=False)
+    base = os.path.join(ctx.workdir, f"stream{ctx.case_index}")
+    os.makedirs(base, exist_ok=True)
+    spec, out = os.path.join(base, "plan.json"), os.path.join(base, "child.json")
+    with open(spec, "w", encoding="utf-8") as f:
+        json.dump(plan, f)
+    try:
+        try:
+            r = subprocess.run([PY, CHILD, spec, out, os.path.join(base, "w")], env=_child_env(ctx, "0", _child_cache(ctx)),
+                               cwd=core.VERIF_ROOT, capture_output=True, text=True, timeout=900, check=False)
+        except subprocess.TimeoutExpired as e:
+            raise core.Inconclusive("stream child hit the wall-clock watchdog (900 s)") from e
+        if r.returncode != 0 or not os.path.exists(out):
+            raise core.Inconclusive(f"stream child failed rc={r.returncode}: {r.stderr[-400:]}")
+        with open(out, encoding="utf-8") as f:
+            rec = json.load(f)
+    finally:
+        shutil.rmtree(base, ignore_errors=True)
+    if rec.get("error"):
+        raise core.Inconclusive(f"stream child: {rec['error'][-900:]}")
+    draws = [monitors.Draw.from_json(d) for d in rec["draws"]]
+    calls = [monitors.CtrCall.from_json(c) for c in rec["ctr"]]
+    total = sum(d.length for d in draws)
+    if total < case["min_bytes"]:
+        raise core.Inconclusive(f"stream child drew only {total} bytes (wanted >= {case['min_bytes']})")
+    ctx.count("rng_stream_children")
+    v0 = ctx._viol_in_case  # pylint: disable=protected-access
+    _report_replays(ctx, draws, "fresh interpreter, one long batch")
+    if ctx.tier == "thorough":  # the pairwise rules over thousands of artifacts are quadratic: thorough tier only
+        stats: collections.Counter = collections.Counter()
+        fnd = judge(draws, rec["arts"], calls, stats)
+        _report(ctx, fnd, rec, "fresh interpreter, one long batch")
+    if ctx._viol_in_case == v0:  # pylint: disable=protected-access
+        ctx.ok(["rng_stream", total // 16384], sample={"artifacts": len(rec["arts"]), "draws": len(draws), "bytes_drawn": total})
 
 
 def finish(ctx):
     if MON is None:
         return
+    # rule 5 over everything this worker's interpreter drew (all its histories together)
+    _report_replays(ctx, list(MON.rng.draws), "check worker (all histories of the shard)")
     imp = [d for d in MON.rng.draws if d.at_import]
     ctx.note("import_time_draws", sorted({f"{d.where} ({d.length} bytes)" for d in imp}))
     ctx.note("draw_sites", sorted({d.where.split(":")[0] for d in MON.rng.draws})[:40])
